@@ -254,15 +254,23 @@ class Scenario:
             kw = dict(op[2]) if len(op) > 2 else {}
             old = self.holder.get("e")
             old_id = getattr(old, "executor_id", None)
+            before = list(getattr(old, "_processes", {}) or {}) if old is not None else []
             S.obs(ev="reuse_call", u=u, n=op[1], kw=kw, old_broken=bool(old is not None and old._flags.broken),
                   old_shutdown=bool(old is not None and old._flags.shutdown))
             try:
                 self._roles()
                 tmo = kw.pop("timeout", self.scn["exec"].get("timeout", 10))
-                ne = ru.get_reusable_executor(max_workers=op[1], timeout=tmo, context=self.scn.get("ctx") or _ctx(), **kw)
+                try:
+                    ne = ru.get_reusable_executor(max_workers=op[1], timeout=tmo, context=self.scn.get("ctx") or _ctx(), **kw)
+                finally:
+                    if esim.LOCK_ROLE or esim.PIPE_ROLE:       # no new executor was built: forget the unused names
+                        del esim.LOCK_ROLE[:], esim.TLOCK_ROLE[:], esim.PIPE_ROLE[:], esim.SEM_ROLE[:]
+                        self.nexec -= 1
                 self._instrument(ne)
                 self.holder["e"] = ne
+                after = list(ne._processes)
                 S.obs(ev="reuse_ret", u=u, n=op[1], same=(ne is old), eid=ne.executor_id, old_eid=old_id,
+                      nbefore=len(before), kept=len(set(before) & set(after)),
                       nproc=len(ne._processes), maxw=ne._max_workers, broken=bool(ne._flags.broken), shutdown=bool(ne._flags.shutdown))
             except BaseException as ex:
                 S.obs(ev="call_exc", u=u, call="reuse", type=type(ex).__name__, what=str(ex)[:100])
